@@ -770,7 +770,8 @@ func (c *VC) evalDirective(st *State, src string, pos token.Pos) (*Term, error) 
 		return nil, err
 	}
 	c.ghost++
-	defer func() { c.ghost-- }()
+	c.mathInts++
+	defer func() { c.ghost--; c.mathInts-- }()
 	return c.eval(st, e), nil
 }
 
